@@ -21,7 +21,7 @@ def run(tier, replay=None):
   ok, info = proof.proof_stage(rep, PID, extra_trusted=['props/coregen.py (AST -> Logica text and AST -> Coq term printers)',
                                                        'props/corecheck.py, Core/Check.v (bag comparison)'])
   variants = [('plain', lambda prog, r: G.p_program(prog))]
-  found = K.run_core(rep, PID, tier, PROFILE, variants, 220, 3000, 'c01', replay=replay, ok=ok, info=info)
+  found = K.run_core(rep, PID, tier, PROFILE, variants, 220, 1500, 'c01', replay=replay, ok=ok, info=info)
   # --- tie of the elimination model (Core/Elim.v) to RuleStructure.ElliminateInternalVariables
   if ok and not replay:
     import random
